@@ -1209,7 +1209,11 @@ func (e *Engine) readFileFromBackup(tr *tar.Reader, shardRelativePath string, as
 		return "", err
 	}
 
-	if !strings.HasSuffix(hdr.Name, TSMFileExtension) {
+	// A tombstone file holds the deletes that have not been compacted into its
+	// TSM file yet. When files keep their names it must be restored next to
+	// the TSM file, or the deleted points come back in the restored shard.
+	isTombstone := !asNew && strings.HasSuffix(hdr.Name, "."+TombstoneFileExtension)
+	if !strings.HasSuffix(hdr.Name, TSMFileExtension) && !isTombstone {
 		// This isn't a .tsm file.
 		return "", nil
 	}
@@ -1237,6 +1241,11 @@ func (e *Engine) readFileFromBackup(tr *tar.Reader, shardRelativePath string, as
 	}
 
 	tmp := fmt.Sprintf("%s.%s", filepath.Join(e.path, filename), TmpTSMFileExtension)
+	if isTombstone {
+		// Tombstones are read when their TSM file is opened; put the file in
+		// place under its own name. It is not a file for the file store.
+		tmp = filepath.Join(e.path, filename)
+	}
 	// Create new file on disk.
 	f, err := os.OpenFile(tmp, os.O_CREATE|os.O_RDWR, 0666)
 	if err != nil {
@@ -1254,6 +1263,9 @@ func (e *Engine) readFileFromBackup(tr *tar.Reader, shardRelativePath string, as
 		return "", err
 	}
 
+	if isTombstone {
+		return "", nil
+	}
 	return tmp, nil
 }
 
